@@ -12,7 +12,7 @@ RULE = ("Accepted texts: grammar derivations (executable, type-system, mixed, st
         "each parsed under all 8 flag combinations. Oracles: (1) tree equality with the reference parser's tree "
         "(kinds, order, decoded values, block flag, verbatim numbers), (2) span equality for every node, None with "
         "no_location, (3) reparse law text[s:e] -> equal node, (4) Node.to_dict agrees with a slot walk. "
-        "Non-trivial: contains a block string of >= 2 lines, an escape sequence, or bracket nesting >= 2; distinct = text.")
+        "Non-trivial: contains a block string of >= 2 lines, an escape sequence, or bracket nesting >= 2; distinct = text. Thorough tier adds a coverage-guided atheris/libFuzzer campaign per shard (py_gql instrumented, libFuzzer seed derived from VERIF_SEED, GraphQL token dictionary, seeded corpus on even shards and empty corpus on odd ones, inputs <= 160 bytes; findings are counted and kept, never fatal, so the campaign goes on) with the same oracle inside the target; its executions are part of `evaluations`, its distinct non-trivial inputs part of `distinct_nontrivial`.")
 ASSUMPTIONS = [
     "Reference parser (vlib/ref/parser.py) builds trees from the June-2018 grammar; block strings by the "
     "specification's BlockStringValue with LF/CR/CRLF terminators and tab/space indentation only.",
@@ -272,6 +272,26 @@ def shard(ctx):
                 ctx.violation(sig, d, {"text": text, "entry": case["entry"]})
 
     run()
+
+
+def fuzz_one(text):
+    """target of the coverage-guided phase (thorough tier): the same oracle on one document text"""
+    vios, stats = check_text(text, "doc")
+    nt = stats.get("accepted") and _nontrivial(text)
+    key = None
+    if nt:
+        toks = R.ref_tokens(text) or []
+        key = tuple(t[0] if t[0] not in ("String", "BlockString") else text[t[2]:t[3]] for t in toks)
+    return vios, key, {"text": text, "entry": "doc"}
+
+
+def _atheris(ctx):
+    from props.c01 import FUZZ_SEEDS
+    from vlib.fuzz.phase import atheris_phase
+    return atheris_phase("C02", 60000, FUZZ_SEEDS + ['{ a(s: "\\u00e9\\n\\"x\\\\") b(t: """\n    two\n      lines\n  """) }'])(ctx)
+
+
+extra_phases = [("atheris", _atheris)]
 
 
 def replay(case):
